@@ -219,13 +219,35 @@ struct dobs {
     size_t consumed;
 };
 
-/* blk: exact-size heap block of tot octets; the varint starts at blk[pre]. */
-static void
+/* A descriptor set-up the library refuses.  Below 2^31 octets that is an
+ * infrastructure failure (C18's subject, not this check's).  From 2^31 octets
+ * on a limit in byte_buffer_set (size > INT32_MAX -> -EINVAL) is a property of
+ * the byte buffer on which C14's statement has no sentence: the case ends as
+ * the trivial class window-refused-big and the run records a cap (once). */
+#define BIG_SIZE (1ull << 31)
+static bool
+setup_refused(size_t size, size_t used, size_t offset)
+{
+    static bool capped;
+    if ((uint64_t)size < BIG_SIZE)
+        mc_broken("byte_buffer_set refused size=%zu used=%zu offset=%zu", size, used, offset);
+    mc_log("byte_buffer_set refused size=%zu used=%zu offset=%zu: not judged (descriptor limits are not C14's subject)", size,
+           used, offset);
+    if (!capped) {
+        capped = true;
+        mc_cap("byte_buffer_set refuses descriptors of 2^31 octets or more: the window cases of that size are not run");
+    }
+    return false;
+}
+
+/* blk: exact-size heap block of tot octets; the varint starts at blk[pre].
+ * false: the library refused to set up a descriptor of tot >= 2^31 octets. */
+static bool
 run_decoders(int t, unsigned char *blk, size_t tot, size_t pre, struct dobs o[3])
 {
     ByteBuffer b;
     if (byte_buffer_set(&b, blk, tot, tot, pre) < 0)
-        mc_broken("byte_buffer_set refused size=%zu used=%zu offset=%zu", tot, tot, pre);
+        return setup_refused(tot, tot, pre);
     o[0].rc = lib_decode(t, &b, &o[0].bits);
     o[0].consumed = b.offset - pre;
 
@@ -236,12 +258,13 @@ run_decoders(int t, unsigned char *blk, size_t tot, size_t pre, struct dobs o[3]
 
     ByteBuffer b2;
     if (byte_buffer_set(&b2, blk, tot, tot, pre) < 0)
-        mc_broken("byte_buffer_set refused");
+        return setup_refused(tot, tot, pre);
     Source s2;
     source_from_buffer(&s2, &b2);
     o[2].rc = lib_from_source(t, &s2, &o[2].bits);
     o[2].consumed = b2.offset - pre;
     mc_trans(3);
+    return true;
 }
 
 static const char *const DN[3] = { "buffer", "octet-source", "buffer-source" };
@@ -433,7 +456,7 @@ check_value(int t, uint64_t bits, bool sweep)
             blk = mc_exact_copy(enc, len);
         }
         struct dobs o[3];
-        run_decoders(t, blk, len, 0, o);
+        (void)run_decoders(t, blk, len, 0, o); /* len <= 10: a refusal is fatal in there */
         for (int d = 0; d < 3 && ok; ++d) {
             if (o[d].rc < 0 || (size_t)o[d].rc != len || o[d].bits != bits || o[d].consumed != len) {
                 mc_fail(d == 0 ? "C14/roundtrip-buffer" : "C14/roundtrip-source",
@@ -710,7 +733,7 @@ one_string(const unsigned char *s, size_t n, size_t pre)
                r.v == V_OK ? "ok" : r.v == V_ILLEGAL ? "illegal" : "truncated", r.count,
                (unsigned long long)r.value, r.overflow || r.ill_overflow, r.canonical);
         struct dobs o[3];
-        run_decoders(t, blk, tot, pre, o);
+        (void)run_decoders(t, blk, tot, pre, o); /* tot <= 16: a refusal is fatal in there */
         if (!judge_string(t, &r, o))
             ok = false;
     }
@@ -1467,16 +1490,202 @@ family_histories(void)
     }
 }
 
+/* ---- decode histories on one descriptor, in every fill-mark flavour ------------------------------ */
+
+/* A receive buffer holds a stream of complete varints and a tail; the varints
+ * are decoded one after the other through ONE descriptor, then the tail is.
+ * The descriptor's memory is exactly the stream (exact-size heap block: a read
+ * behind it is an ASan report) or the front of a bigger block that goes on with
+ * terminator octets (01: an over-read shows as a bogus success).  Flavours of
+ * the fill mark: filled (used = size, byte_buffer_use), space (used = 0,
+ * byte_buffer_space around received data - the idiom of the repository's
+ * tests; after the first decode the read cursor is BEYOND the fill mark) and
+ * partly (every 0 < used < size).
+ *
+ * Oracle per decode, r = reference verdict on memory[offset, size):
+ *   cut off by the end of the memory: an error that consumes nothing (any
+ *     flavour: "the buffer decoder never reads beyond the buffer's memory");
+ *   no terminator within the maximum: an error (and, when all of it lies below
+ *     the fill mark, not the cut-off code, as in judge_string);
+ *   complete canonical encoding: when all of it lies in [offset, used) the
+ *     round trip sentence decides; when it reaches beyond the fill mark (or the
+ *     cursor already is beyond it) the statement does not say that such octets
+ *     are "in the buffer": exact success or a refusal are both accepted, a
+ *     refusal ends the history (class dechist-*-refused-beyond-mark). */
+enum { DF_FILLED, DF_SPACE, DF_PARTLY, DF_N };
+static const char *const DFN[DF_N] = { "filled (used = size)", "space (used = 0)", "partly filled" };
+enum { DO_CUTOFF, DO_OK, DO_ILLEGAL, DO_REFUSED, DO_N };
+static const char *const DH_OUT[DF_N][DO_N] = {
+    { "dechist-filled-cutoff", "dechist-filled-ok", "dechist-filled-illegal", "dechist-filled-refused-beyond-mark" },
+    { "dechist-space-cutoff", "dechist-space-ok", "dechist-space-illegal", "dechist-space-refused-beyond-mark" },
+    { "dechist-partly-cutoff", "dechist-partly-ok", "dechist-partly-illegal", "dechist-partly-refused-beyond-mark" },
+};
+
+/* one decode; DO_* reached, or -1 after a recorded failure */
+static int
+dechist_step(int t, ByteBuffer *b, unsigned char *mem, size_t size, const char *what)
+{
+    const size_t o = b->offset, u = b->used;
+    const struct refdec r = ref_dec(mem + o, size - o, t);
+    uint64_t got;
+    const int rc = lib_decode(t, b, &got);
+    mc_trans(1);
+    mc_log("%s as %s at offset=%zu (used=%zu size=%zu): reference %s count=%zu; rc=%d value=0x%llx offset afterwards %zu", what,
+           TN[t], o, u, size, r.v == V_OK ? "ok" : r.v == V_ILLEGAL ? "illegal" : "cut off", r.count, rc,
+           rc >= 0 ? (unsigned long long)got : 0ull, b->offset);
+    if (b->data != mem || b->size != size) {
+        mc_fail("C14/roundtrip-buffer", "%s: decoding changed the descriptor's memory or size", TN[t]);
+        return -1;
+    }
+    switch (r.v) {
+    case V_TRUNC:
+        if (rc >= 0) {
+            mc_fail("C14/truncated-is-error",
+                    "%s: %zu octets of memory follow the read cursor (size=%zu used=%zu offset=%zu), none is a terminator: buffer "
+                    "decoder returned %d",
+                    TN[t], size - o, size, u, o, rc);
+            return -1;
+        }
+        if (b->offset != o) {
+            mc_fail("C14/truncated-consumes-nothing",
+                    "%s: buffer decoder failed with %d on a varint cut off by the end of the memory but moved the offset from %zu "
+                    "to %zu (size=%zu used=%zu)",
+                    TN[t], rc, o, b->offset, size, u);
+            return -1;
+        }
+        return DO_CUTOFF;
+    case V_ILLEGAL: {
+        const bool below = o <= u && o + t_max(t) <= u;
+        if (rc >= 0 || (below && !r.ill_overflow && rc == -ENODATA)) {
+            mc_fail("C14/no-terminator-illegal",
+                    "%s: %zu octets without terminator at offset %zu (size=%zu used=%zu), buffer decoder returned %d", TN[t],
+                    t_max(t), o, size, u, rc);
+            return -1;
+        }
+        return DO_ILLEGAL;
+    }
+    case V_OK:
+        break;
+    }
+    const bool below = o <= u && o + r.count <= u;
+    if (rc < 0) {
+        if (below && r.canonical) {
+            mc_fail("C14/roundtrip-buffer",
+                    "%s: the unread part of the descriptor (size=%zu used=%zu offset=%zu) starts with the %zu-octet encoding of "
+                    "0x%llx: rc=%d",
+                    TN[t], size, u, o, r.count, (unsigned long long)r.value, rc);
+            return -1;
+        }
+        return DO_REFUSED;
+    }
+    if ((size_t)rc != r.count || b->offset != o + r.count || (r.canonical && got != r.value)) {
+        mc_fail("C14/roundtrip-buffer",
+                "%s: the %zu-octet encoding of 0x%llx at offset %zu (size=%zu used=%zu): rc=%d value=0x%llx offset=%zu", TN[t],
+                r.count, (unsigned long long)r.value, o, size, u, rc, (unsigned long long)got, b->offset);
+        return -1;
+    }
+    return DO_OK;
+}
+
+static void
+family_dechist(void)
+{
+    const unsigned maxpre = mc_thorough() ? 3 : 2;
+    for (int tp = 0; tp < NTYPES; ++tp) {
+        const struct bstr *part = tp < T_U64 ? PART32 : PART64;
+        for (int tt = 0; tt < NTYPES; ++tt) {
+            const size_t tmax = t_max(tt);
+            /* tails: nothing; 1..max-1 continuation octets (80.. / ff..); the three parts; max continuation octets */
+            const unsigned ntails = 1 + 2 * (unsigned)(tmax - 1) + 3 + 1;
+            for (unsigned k = 0; k <= maxpre; ++k) {
+                unsigned total = 1;
+                for (unsigned j = 0; j < k; ++j)
+                    total *= 3;
+                for (unsigned comb = 0; comb < total; ++comb)
+                    for (unsigned ti = 0; ti < ntails; ++ti) {
+                        unsigned char stream[48];
+                        size_t n = 0;
+                        unsigned r = comb;
+                        for (unsigned j = 0; j < k; ++j) {
+                            memcpy(stream + n, part[r % 3].s, part[r % 3].n);
+                            n += part[r % 3].n;
+                            r /= 3;
+                        }
+                        const size_t pren = n;
+                        if (ti == 0) {
+                        } else if (ti <= 2 * (tmax - 1)) {
+                            const size_t c = (ti + 1) / 2;
+                            memset(stream + n, (ti & 1) ? 0x80 : 0xff, c);
+                            n += c;
+                        } else if (ti <= 2 * (tmax - 1) + 3) {
+                            const struct bstr *tp3 = tt < T_U64 ? PART32 : PART64;
+                            const struct bstr *q = &tp3[ti - 2 * (tmax - 1) - 1];
+                            memcpy(stream + n, q->s, q->n);
+                            n += q->n;
+                        } else {
+                            memset(stream + n, 0x80, tmax);
+                            n += tmax;
+                        }
+                        if (n == 0)
+                            continue; /* a ByteBuffer cannot have size 0 */
+                        /* flavours: filled, space, partly with every 0 < used < size */
+                        for (size_t used = 0; used <= n; ++used)
+                            for (unsigned arena = 0; arena < 2; ++arena) {
+                                if (!mc_would_run()) {
+                                    mc_skip_case();
+                                    continue;
+                                }
+                                const int fl = used == n ? DF_FILLED : used == 0 ? DF_SPACE : DF_PARTLY;
+                                char hex[3 * 48 + 1];
+                                hex_text(stream, n, hex);
+                                if (!mc_case("dechist memory=[%s] (%zu octets, %s), descriptor %s used=%zu offset=0: decode %u "
+                                             "varints as %s (%zu octets), then the rest as %s",
+                                             hex, n, arena ? "followed by 16 octets 01 in the same block" : "exact-size block",
+                                             DFN[fl], used, k, TN[tp], pren, TN[tt]))
+                                    continue;
+                                unsigned char *mem = mc_exact(n + (arena ? 16 : 0));
+                                memcpy(mem, stream, n);
+                                if (arena)
+                                    memset(mem + n, 0x01, 16);
+                                ByteBuffer b;
+                                const int src = fl == DF_FILLED ? byte_buffer_use(&b, mem, n)
+                                    : fl == DF_SPACE            ? byte_buffer_space(&b, mem, n)
+                                                                : byte_buffer_set(&b, mem, n, used, 0);
+                                if (src < 0)
+                                    mc_broken("byte buffer set-up refused size=%zu used=%zu offset=0", n, used);
+                                int res = DO_OK;
+                                unsigned done = 0;
+                                for (unsigned j = 0; j < k && res == DO_OK; ++j) {
+                                    res = dechist_step(tp, &b, mem, n, "varint");
+                                    if (res == DO_OK)
+                                        done++;
+                                }
+                                if (res == DO_OK && done == k)
+                                    res = dechist_step(tt, &b, mem, n, "rest");
+                                /* a second attempt on a cut-off rest: nothing was consumed, so nothing changes */
+                                if (res == DO_CUTOFF)
+                                    res = dechist_step(tt, &b, mem, n, "rest again");
+                                free(mem);
+                                mc_end(done >= 1 && res == DO_CUTOFF, res < 0 ? "dechist-failed" : DH_OUT[fl][res]);
+                            }
+                    }
+            }
+        }
+    }
+}
+
 /* ---- decoding in place: the result object lives inside the buffer's memory ------------------- */
 
-/* The decoders take a plain pointer for the result (no restrict, no sentence in
- * the header about where it may point): a caller that unpacks a record in place
- * hands in a result object inside the memory that is being decoded.  The round
- * trip sentence ("decoding it returns the same value and consumes exactly those
- * octets") is checked for every placement of an aligned result object against
- * the encoding: disjoint, over its head, over its tail, inside it.  Only
- * canonical encodings are used; nothing is demanded of the buffer's content
- * afterwards. */
+/* The decoders take a plain pointer for the result: a caller that unpacks a
+ * record in place hands in a result object inside the memory that is being
+ * decoded.  The round trip sentence ("decoding it returns the same value and
+ * consumes exactly those octets") is checked for every placement of an aligned
+ * result object that does NOT overlap the encoding.  Placements over the
+ * encoding's head, tail or inside it are run and logged but not judged (audit
+ * 5: the statement says nothing about the result aliasing the input; a decoder
+ * that clears *n on entry and accumulates directly into it is admissible).
+ * Only canonical encodings are used; nothing is demanded of the buffer's
+ * content afterwards. */
 static inline int
 lib_decode_at(int t, ByteBuffer *b, void *res)
 {
@@ -1551,15 +1760,22 @@ family_inplace(void)
                         }
                         const size_t consumed = b.offset - pre;
                         mc_log("rc=%d value=0x%llx consumed=%zu", rc, rc >= 0 ? (unsigned long long)got : 0ull, consumed);
-                        if (rc < 0 || (size_t)rc != len || got != vals[vi] || consumed != len)
+                        const bool overlap = rp < pre + len && pre < rp + w;
+                        const bool exact = rc >= 0 && (size_t)rc == len && got == vals[vi] && consumed == len;
+                        if (overlap) {
+                            /* observation only (audit 5): the statement has no sentence about a
+                             * result object that aliases the octets being decoded */
+                            mc_log("observation: result object overlaps the encoding; round trip %s", exact ? "exact" : "NOT exact "
+                                   "(not judged: the statement says nothing about the result aliasing the input)");
+                        } else if (!exact)
                             mc_fail(d == 0 ? "C14/roundtrip-buffer" : "C14/roundtrip-source",
                                     "%s: %s decoder on the %zu-octet encoding of 0x%llx at octet %zu of a %zu-octet buffer, result "
-                                    "stored at octet %zu of the same memory: rc=%d value=0x%llx consumed=%zu",
+                                    "stored at octet %zu of the same memory (not overlapping the encoding): rc=%d value=0x%llx "
+                                    "consumed=%zu",
                                     TN[t], DN[d], len, (unsigned long long)vals[vi], pre, tot, rp, rc,
                                     rc >= 0 ? (unsigned long long)got : 0ull, consumed);
                         free(blk);
-                        const bool overlap = rp < pre + len && pre < rp + w;
-                        mc_end(overlap && len >= 2, overlap ? "inplace-overlapping" : "inplace-disjoint");
+                        mc_end(!overlap && len >= 2, overlap ? "inplace-overlapping" : "inplace-disjoint");
                     }
             }
     }
@@ -1570,8 +1786,18 @@ family_inplace(void)
 /* A stacked sink (record framing, tee, sequence numbering): while its driver
  * holds the chunk it was handed and before it stores it, it encodes a varint of
  * its own to a sink below.  Both calls are encodings in the statement's sense:
- * each has to deliver the minimal form of its value. */
+ * each has to deliver the minimal form of its value.
+ *
+ * That demands RE-ENTRANCY of the sink encoders, on which the statement has no
+ * sentence (a `static` scratch array in varint_*_to_sink encodes every value
+ * correctly into every sink that does not call back into the library).  The
+ * family is therefore gated: a start-up probe (nested_probe) runs every (outer
+ * type, inner type, sink kind) combination with and, where that goes wrong,
+ * without the inner call; if an encoding is only wrong when the driver encodes
+ * too, the cases are numbered but not run (class nested-not-run, a cap, exit 0)
+ * -- never a violation. */
 struct nsink {
+    bool quiet;          /* probe: the driver does not call the library */
     int t_in;
     uint64_t v_in;
     bool v_is_len;       /* the inner value is the length of the chunk in hand */
@@ -1601,6 +1827,8 @@ nsink_inner_put(void *drv, const void *p, size_t n)
 static void
 nsink_nested(struct nsink *s, size_t chunk_len)
 {
+    if (s->quiet)
+        return;
     const uint64_t v = s->v_is_len ? (uint64_t)chunk_len : s->v_in;
     unsigned char want[10];
     const size_t len = ref_enc(v, want);
@@ -1641,6 +1869,55 @@ nsink_put_octet(void *drv, unsigned char c)
     return 1;
 }
 
+/* one outer encode; returns 0 both minimal, 1 the inner encoding was not, 2 the outer one was not */
+static int
+nested_run(int t, uint64_t v, int octet, int ti, uint64_t vin, bool v_is_len, bool quiet, struct nsink *s, int *rc_out)
+{
+    memset(s, 0, sizeof *s);
+    s->quiet = quiet;
+    s->t_in = ti;
+    s->v_in = vin;
+    s->v_is_len = v_is_len;
+    chunk_sink_init(&s->inner, nsink_inner_put, s);
+    Sink outer;
+    if (octet)
+        octet_sink_init(&outer, nsink_put_octet, s);
+    else
+        chunk_sink_init(&outer, nsink_put_chunk, s);
+    unsigned char want[10];
+    const size_t len = ref_enc(v, want);
+    const int rc = lib_to_sink(t, &outer, v);
+    *rc_out = rc;
+    if (s->inner_bad)
+        return 1;
+    if (rc < 0 || s->n != len || memcmp(s->got, want, len) != 0)
+        return 2;
+    return 0;
+}
+
+/* Is varint_*_to_sink re-entrant?  Every (outer type, inner type, sink kind) x
+ * outer values {0x80, all-ones} x inner values {length of the chunk in hand,
+ * 1234, all-ones}: wrong with the inner call and right without it = not
+ * re-entrant.  Runs outside any case, in every process. */
+static bool
+nested_probe(void)
+{
+    for (int t = 0; t < NTYPES; ++t)
+        for (int ti = 0; ti < NTYPES; ++ti)
+            for (int octet = 0; octet < 2; ++octet)
+                for (int vo = 0; vo < 2; ++vo)
+                    for (int vi = 0; vi < 3; ++vi) {
+                        const uint64_t v = vo ? t_mask(t) : 0x80;
+                        const uint64_t vin = (vi == 1 ? 1234 : ~0ull) & t_mask(ti);
+                        struct nsink s;
+                        int rc;
+                        if (nested_run(t, v, octet, ti, vin, vi == 0, false, &s, &rc) != 0
+                            && nested_run(t, v, octet, ti, vin, vi == 0, true, &s, &rc) == 0)
+                            return false;
+                    }
+    return true;
+}
+
 static void
 family_nested_sinks(void)
 {
@@ -1648,6 +1925,13 @@ family_nested_sinks(void)
     static const uint64_t V64[] = { 0, 0x7f, 0x80, 1234, 0x1ffff, 0x123456789abcull, 0x7fffffffffffffffull,
                                     0x8000000000000000ull, ~0ull };
     static const uint64_t INNER[5] = { 0 /* the chunk's length */, 0, 0x7f, 1234, ~0ull };
+    const bool was_active = mc.active;
+    mc.active = false; /* the probe belongs to no case: no transition counts */
+    const bool runnable = nested_probe();
+    mc.active = was_active;
+    if (!runnable)
+        mc_cap("varint_*_to_sink is not re-entrant (an encoding is only wrong when the sink's driver encodes a varint itself): "
+               "nested cases not run");
     for (int t = 0; t < NTYPES; ++t) {
         const bool w32 = t < T_U64;
         const uint64_t *vals = w32 ? V32 : V64;
@@ -1662,31 +1946,28 @@ family_nested_sinks(void)
                                      TN[t], (unsigned long long)vals[vi], octet ? "octet" : "chunk", TN[ti],
                                      (unsigned long long)vin, ii == 0 ? " (the length of the chunk in hand instead)" : ""))
                             continue;
+                        if (!runnable) {
+                            mc_log("not run: the start-up probe found an encoding that is only wrong when the sink's driver "
+                                   "encodes a varint itself (the encoders are not re-entrant; the statement does not say they are)");
+                            mc_end(false, "nested-not-run");
+                            continue;
+                        }
                         struct nsink s;
-                        memset(&s, 0, sizeof s);
-                        s.t_in = ti;
-                        s.v_in = vin;
-                        s.v_is_len = ii == 0;
-                        chunk_sink_init(&s.inner, nsink_inner_put, &s);
-                        Sink outer;
-                        if (octet)
-                            octet_sink_init(&outer, nsink_put_octet, &s);
-                        else
-                            chunk_sink_init(&outer, nsink_put_chunk, &s);
                         unsigned char want[10];
                         const size_t len = ref_enc(vals[vi], want);
-                        const int rc = lib_to_sink(t, &outer, vals[vi]);
+                        int rc;
+                        const int verdict = nested_run(t, vals[vi], octet, ti, vin, ii == 0, false, &s, &rc);
                         mc_trans(1);
                         mc_log("outer rc=%d, %zu octets in %u driver calls; %zu octets reached the sink below", rc, s.n, s.calls,
                                s.in_n);
                         mc_log_hex("  outer sink stored", s.got, s.n <= sizeof s.got ? s.n : sizeof s.got);
                         mc_log_hex("  minimal form", want, len);
-                        if (s.inner_bad)
+                        if (verdict == 1)
                             mc_fail("C14/encode-minimal-sink",
                                     "%s: encoding 0x%llx to a sink from inside the driver of a sink that is being encoded to: rc=%d, "
                                     "not the minimal form",
                                     TN[ti], (unsigned long long)s.inner_v, s.inner_rc);
-                        else if (rc < 0 || s.n != len || memcmp(s.got, want, len) != 0)
+                        else if (verdict == 2)
                             mc_fail("C14/encode-minimal-sink",
                                     "%s: encoding 0x%llx to a sink whose driver encodes a varint of its own to another sink before "
                                     "it stores what it was handed: rc=%d, %zu octets stored that %s the minimal form of %zu octets",
@@ -1774,7 +2055,8 @@ family_windows(void)
                 const size_t put = WSTR[si].n < r ? WSTR[si].n : (size_t)r;
                 memcpy(data + off, WSTR[si].s, put);
                 struct refdec r64 = { 0 };
-                for (int t = 0; t < NTYPES; ++t) {
+                bool refused = false;
+                for (int t = 0; t < NTYPES && !refused; ++t) {
                     const struct refdec rd = ref_dec(eff, effn, t);
                     if (t == T_U64)
                         r64 = rd;
@@ -1782,10 +2064,16 @@ family_windows(void)
                            rd.v == V_OK ? "ok" : rd.v == V_ILLEGAL ? "illegal" : "truncated", rd.count,
                            (unsigned long long)rd.value);
                     struct dobs o[3];
-                    run_decoders(t, data, (size_t)size, (size_t)off, o);
-                    (void)judge_string(t, &rd, o);
+                    if (!run_decoders(t, data, (size_t)size, (size_t)off, o))
+                        refused = true;
+                    else
+                        (void)judge_string(t, &rd, o);
                 }
                 memset(data + off, 0, put);
+                if (refused) {
+                    mc_end(false, "window-refused-big");
+                    continue;
+                }
                 const bool big = r >= (1ull << 31) || off >= (1ull << 31);
                 mc_end(size > 255, r64.v == V_TRUNC ? (big ? "window-cutoff-big" : "window-cutoff")
                            : r64.v == V_ILLEGAL     ? (big ? "window-illegal-big" : "window-illegal")
@@ -1811,8 +2099,12 @@ family_windows(void)
                         for (unsigned g = 0; g < gap; ++g)
                             data[off + g] = (unsigned char)(0x91u + g);
                         ByteBuffer b;
-                        if (byte_buffer_set(&b, data, (size_t)size, (size_t)used, (size_t)off) < 0)
-                            mc_broken("byte_buffer_set refused");
+                        if (byte_buffer_set(&b, data, (size_t)size, (size_t)used, (size_t)off) < 0) {
+                            (void)setup_refused((size_t)size, (size_t)used, (size_t)off);
+                            memset(data + off, 0, gap);
+                            mc_end(false, "window-refused-big");
+                            continue;
+                        }
                         bool at_cursor = false;
                         const int e = encode_step(t, &b, data, (size_t)size, dv[vi], &at_cursor);
                         if (e == 1 && at_cursor)
@@ -1938,6 +2230,7 @@ main(int argc, char **argv)
     /* 4. descriptors that are not fresh */
     family_dirty();
     family_histories();
+    family_dechist();
 
     /* 5. large windows */
     window_init();
@@ -1951,14 +2244,17 @@ main(int argc, char **argv)
     family_inplace();
     family_nested_sinks();
 
-    char bound[2400];
+    char bound[3200];
     snprintf(bound, sizeof bound,
              "32 bit: %s, plus the structured set (x<<s and ~(x<<s) for x<256, 2^k and 2^k+-1, one/two/all septet lanes "
              "over {00,01,40,7f}, octet lanes over {00,01,7f,80,ff}); 64 bit: the structured set%s; decoder input: "
              "every string of length 1..%zu over {00,01,7f,80,81,ff}%s, and of length 0..5 behind 1 and 3 consumed octets; "
              "reuse: one encode of {5,1234,max} on every (size,used,offset) for size in {max-1,max,max+1,max+2,2max,2max+3}, "
              "every history of 1..%u operations over {enc1,enc2,encmax,dec,repeat,seek-end,reset} on a fresh descriptor of "
-             "size {max,2max,3max+1}; windows: 10 strings x 16 offsets (0,1,3, 2^7,2^8,2^16 and neighbours, 2^31-1..2^31+1, "
+             "size {max,2max,3max+1}; decode histories: every stream of 0..%u complete varints over {1 octet, 2 octets, maximum} "
+             "followed by {nothing, 1..max-1 continuation octets 80/ff, a complete varint, max continuation octets}, as the memory "
+             "of one descriptor (exact-size block, or followed by 16 octets 01) with every fill mark 0..size, decoded varint by "
+             "varint (4 types) and then the rest (4 types); windows: 10 strings x 16 offsets (0,1,3, 2^7,2^8,2^16 and neighbours, 2^31-1..2^31+1, "
              "2^32-1..2^32+5) x 96 lengths behind the offset (1..11, 2^p-2..2^p+11 for p in 7,8,15,16,31,32, 3*2^30), "
              "encoders on the same offsets x fill mark at/3 behind the offset x the same 96 free lengths; scripts: source "
              "decoders (octet and chunk source, 13/14 strings per width) and sink encoders (octet sink, chunk sink taking all/1/2/3 "
@@ -1966,11 +2262,13 @@ main(int argc, char **argv)
              "driver calls of one varint, up to %u among those of every stream of 2 and 3 varints over {1 octet, 2 octets, "
              "maximum} through one Source/Sink; in place: buffer decoder and buffer-backed source on the encodings of 13/25 "
              "values per width at every position of a 16/24-octet buffer with the result object at every aligned position of "
-             "the same memory; nested: 8/9 values per type to an octet/chunk sink whose driver encodes {chunk length,0,7f,1234,"
-             "max} of every type to a sink below before it stores what it was handed",
+             "the same memory (judged where the object does not overlap the encoding); nested: 8/9 values per type to an octet/chunk sink whose driver encodes {chunk length,0,7f,1234,"
+             "max} of every type to a sink below before it stores what it was handed (run only when a start-up probe finds the sink "
+             "encoders re-entrant)",
              mc_thorough() ? "all 2^32 values" : "all values < 2^17",
              mc_thorough() ? " plus odd*2^s and complements for every odd < 2^16 and every s" : "", maxlen,
              mc_thorough() ? "" : " and of length 9..11 over {00,7f,80}", mc_thorough() ? 4u : 3u, mc_thorough() ? 3u : 2u,
+             mc_thorough() ? 3u : 2u,
              mc_thorough() ? 2u : 1u);
     mc_finish(true, bound);
     return 0;
